@@ -2471,16 +2471,18 @@ def gen_ops(ctx, S, n):
 
 
 def session_op_sx(X, op):
-    """the operations the session model knows (the others create no genome and touch no cache)"""
+    """the operations the session model knows (listings and lookups by id are not calls of the session machine)"""
     if op[0] in ('vertical', 'lateral'):
         return [op[0], list(op[1]), list(op[2])]
     if op[0] == 'profile_full':
         return ['profile_full']
     if op[0] == 'clustering':
         return ['clustering', list(op[1])]
-    if op[0] == 'iham':
+    if op[0] in ('iham', 'profile_hog', 'nav'):
         h = X.by_key[op[1]]
-        return ['iham', X.d.oid_of(h)]
+        return [op[0], X.d.oid_of(h)]
+    if op[0] == 'at_level':
+        return ['at_level', X.d.ref_sx(X.by_key[op[1]]), list(op[2])]
     return None
 
 
